@@ -171,6 +171,11 @@ def retry_programs():
 
 def switch_programs():
     out = []
+    # int labels (0 is falsy)
+    nodes = [N('A'), N('S', I('p1', 'A')), N('C0', I('p1', 'A')), N('C1', I('p1', 'A')), N('C2', I('p1', 'A')),
+             N('O', SW('p1', 'S', [('0', 'C0'), ('1', 'C1'), ('2', 'C2')], name='il'))]
+    out += variants(P('switch_int_labels', nodes, 'A', 'O', tags=['switch']),
+                    [[R({'S': ['label:0']})], [R({'S': ['label:2']})], [R({'S': ['label:7']})]], ['zero', 'two', 'unknown'])
     # a case labelled with a falsy value ('')
     nodes = [N('A'), N('S', I('p1', 'A')), N('C1', I('p1', 'A')), N('C2', I('p1', 'A')),
              N('O', SW('p1', 'S', [('', 'C1'), ('l2', 'C2')], name='fl'))]
@@ -459,6 +464,17 @@ def rec_programs():
     nodes = [N('A'), N('M', I('p1', 'A')), N('D', I('p1', 'M')), N('O', RC('p1', 'A', 'D', 3))]
     p = P('rec_from_input', nodes, 'A', 'O', tags=['rec'])
     out += variants(p, [[R(recreq={'D': 1})], [R(recreq={'D': 3})], [R(recreq={'D': 4})]], ['it1', 'it3', 'it4_exhaust'])
+    # a single-node sub-graph: the polling node is its own start and destination
+    nodes1 = [N('A'), N('D', I('p1', 'A')), N('O', RC('p1', 'D', 'D', 3))]
+    out += variants(P('rec_single_node', nodes1, 'A', 'O', tags=['rec']),
+                    [[R(recreq={'D': 2})], [R(recreq={'D': 0})], [R(recreq={'D': 4})]], ['it2', 'it0', 'it4_exhaust'])
+    nodes1d = [N('A'), N('D', I('p1', 'A'), use_default=True), N('O', RC('p1', 'D', 'D', 2))]
+    out += variants(P('rec_single_node_default', nodes1d, 'A', 'O', tags=['rec']), [[R(recreq={'D': 5})]], ['exhaust'])
+    # nested sub-graphs that share a node (N) with an input (P) that belongs to the outer one only
+    nodes2 = [N('A'), N('S1', I('p1', 'A')), N('PP', I('p1', 'S1')), N('S2', I('p1', 'S1')), N('NN', I('p1', 'S2'), I('p2', 'PP')),
+              N('D2', I('p1', 'NN')), N('M', RC('p1', 'S2', 'D2', 2)), N('D1', I('p1', 'M')), N('O', RC('p1', 'S1', 'D1', 3))]
+    out += variants(P('rec_nested_shared', nodes2, 'A', 'O', tags=['rec']),
+                    [[R(recreq={'D2': 1, 'D1': 2})], [R(recreq={'D2': 1, 'D1': 1})]], ['in1_out2', 'in1_out1'])
     # next_iteration(token) then next_iteration(None) when the start node is the pipeline's input node
     p = P('rec_from_input_none', nodes, 'A', 'O', tags=['rec'])
     out += variants(p, [[R(recreq={'D': 2}, recnone={'D': [2]})]], ['token_then_none'])
@@ -555,6 +571,12 @@ def rec_programs():
     out += variants(P('oneof_inside_rec', nodes, 'A', 'O', tags=['rec', 'oneof', 'D9']),
                     [[R({'K1': ['raise:E1']}, recreq={'D': 1})], [R({}, recreq={'D': 1})], [R({'K1': ['raise:E1']}, recreq={'D': 0})]],
                     ['k1fails_it1', 'ok_it1', 'k1fails_it0'])
+    # ... the whole thing inside a candidate of an OUTER one-of; the inner first candidate fails in the first iteration
+    # only (its failure, kept as a value, is hidden by the re-iteration and must not count as an error any more)
+    nodes = [N('A'), N('S', I('p1', 'A')), N('K1', I('p1', 'S')), N('K2', I('p1', 'S')), N('D', OO('p1', ['K1', 'K2'])),
+             N('RF', RC('p1', 'S', 'D', 3)), N('RG', I('p1', 'A')), N('O', OO('p1', ['RF', 'RG']))]
+    out += variants(P('oneof_inside_rec_in_candidate', nodes, 'A', 'O', tags=['rec', 'oneof', 'D9']),
+                    [[R(recreq={'D': 1}, plan_it={'K1': [['raise:E1'], ['ok']]})]], ['k1_it0'])
     # ... and a started node (S) of the candidate that failed in the first iteration is still in flight when the
     # sub-graph re-iterates: its execution belongs to the previous iteration (fix: outdated executions are stopped)
     nodes = [N('A'), N('B0', I('p1', 'A')), N('F', I('p1', 'B0')), N('S', I('p1', 'B0')), N('P1', I('p1', 'F'), I('p2', 'S')),
